@@ -2,7 +2,12 @@
 C38 — model of /repo/fileid: rle.go, encode.go, decode.go, file_id.go, photo_size_source.go.
 
 Integers are carried as unsigned bit patterns (`Nat`): `u32` fields `< 2^32`, `u64` fields
-`< 2^64`; the Go side converts with `uint32(..)`/`uint64(..)`.  The zero-run counter of
+`< 2^64`; the Go side converts with `uint32(..)`/`uint64(..)`.  The field order and widths of the four (de)serialisers are NOT written here: they are the
+wire programs `Facts.C38.encLatest decLatest pssEncodeHead pssEncodeSwitch pssDecode
+pssDecodeSwitch`, regenerated from the source on every run (harness/c38/wire.go) and INTERPRETED
+below.  A step is `(cond, kind, field)`; kinds: 4 = 32-bit word, 8 = 64-bit word, 1 = TL bytes,
+9 = return, 7 = photo size source, 2 = one raw byte, 6 = switch over the photo size source type.
+The zero-run counter of
 `rleEncode` is a Go `byte`, modelled as a `Nat` kept `≤ 255` by the flush-at-255 branch
 (the code after the `fix:` commit for D9); `rleEncodeWrap` is the pre-fix code, kept to state
 the counterexample.
@@ -13,14 +18,26 @@ import TdModel.Gen.C38
 namespace TdModel.C38
 open TdModel TdModel.Bin
 
-/-- `fileid.rleEncode` (fixed: the counter is flushed before it would wrap). `c` = `count`. -/
-def rleEnc : Nat → Bytes → Bytes
+/-- Readable transliteration of `fileid.rleEncode` (the counter is flushed before it would wrap);
+`c` = `count`.  Used in the proofs; `rleEnc_eq_ref` (Lemmas) shows the source-derived `rleEnc`
+below computes the same function. -/
+def rleEncRef : Nat → Bytes → Bytes
   | c, [] => if c > 0 then [0, UInt8.ofNat c] else []
   | c, x :: rest =>
     if x = 0 then
-      if c = 255 then 0 :: 255 :: rleEnc 1 rest else rleEnc (c + 1) rest
+      if c = 255 then 0 :: 255 :: rleEncRef 1 rest else rleEncRef (c + 1) rest
     else
-      (if c > 0 then [0, UInt8.ofNat c] else []) ++ x :: rleEnc 0 rest
+      (if c > 0 then [0, UInt8.ofNat c] else []) ++ x :: rleEncRef 0 rest
+
+def byteOf (i : Int) : UInt8 := UInt8.ofNat i.toNat
+
+/-- `fileid.rleEncode`: the loop body and the final flush are the terms `rleStepCount`,
+`rleStepOut`, `rleFlushOut` obtained by symbolic execution of the source (harness/c38/rle.go);
+`c` = `count` (a Go `byte`). -/
+def rleEnc : Nat → Bytes → Bytes
+  | c, [] => (Facts.C38.rleFlushOut c).map byteOf
+  | c, x :: rest =>
+    (Facts.C38.rleStepOut c x.toNat).map byteOf ++ rleEnc (Facts.C38.rleStepCount c x.toNat).toNat rest
 
 def rleEncode (s : Bytes) : Bytes := rleEnc 0 s
 
@@ -75,34 +92,6 @@ def persistentIDVersion : Nat := Facts.C38.persistentIDVersion
 def isPhotoType (t : Nat) : Bool :=
   t = Facts.C38.typeThumbnail ∨ t = Facts.C38.typeProfilePhoto ∨ t = Facts.C38.typePhoto
 
-/-- `PhotoSizeSource.encode`. -/
-def PSS.encode (p : PSS) : Bytes :=
-  putU32 p.type ++
-  match p.type with
-  | 0 => putU64 p.secret
-  | 1 => putU32 p.fileType ++ putU32 p.thumbType
-  | 2 | 3 => putU64 p.dialogID ++ putU64 p.dialogAH
-  | 4 => putU64 p.setID ++ putU64 p.setAH
-  | 5 => putU64 p.volumeID ++ putU64 p.secret ++ putU32 p.localID
-  | 6 | 7 => putU64 p.dialogID ++ putU64 p.dialogAH ++ putU64 p.volumeID ++ putU32 p.localID
-  | 8 => putU64 p.setID ++ putU64 p.setAH ++ putU64 p.volumeID ++ putU32 p.localID
-  | 9 => putU64 p.setID ++ putU64 p.setAH ++ putU32 p.stickerVersion
-  | _ => []
-
-/-- `FileID.encodeLatestFileID`. -/
-def FileID.encodeLatest (f : FileID) : Bytes :=
-  let hasWeb := f.url ≠ []
-  let hasRef := f.fileRef ≠ []
-  let typeID := f.type ||| (if hasWeb then webLocationFlag else 0) ||| (if hasRef then fileReferenceFlag else 0)
-  putU32 typeID ++ putU32 f.dc ++ (if hasRef then putBytes f.fileRef else []) ++
-  (if hasWeb then putBytes f.url
-   else putU64 f.id ++ putU64 f.accessHash ++ (if isPhotoType f.type then f.pss.encode else [])
-        ++ [UInt8.ofNat latestSubVersion])
-
-/-- Bytes handed to base64 by `EncodeFileID`. -/
-def encodeRaw (f : FileID) : Bytes :=
-  rleEncode (f.encodeLatest ++ [UInt8.ofNat persistentIDVersion])
-
 inductive DErr where
   | empty | base64 | tooSmall | unsupported | unknownVersion | unknownType | unknownPSS | eof | invalidLength
   deriving Repr, DecidableEq, BEq
@@ -121,108 +110,126 @@ def rdU32 (b : Bytes) : Except DErr (Nat × Bytes) := liftE (getU32 b)
 def rdU64 (b : Bytes) : Except DErr (Nat × Bytes) := liftE (getU64 b)
 def rdBytes (b : Bytes) : Except DErr (Bytes × Bytes) := liftE (getBytes b)
 
-def readDialog (p : PSS) (b : Bytes) : Except DErr (PSS × Bytes) := do
-  let (d, b) ← rdU64 b
-  let (h, b) ← rdU64 b
-  pure ({ p with dialogID := d, dialogAH := h }, b)
+abbrev WStep := Nat × Nat × Nat
 
-def readStickerSet (p : PSS) (b : Bytes) : Except DErr (PSS × Bytes) := do
-  let (d, b) ← rdU64 b
-  let (h, b) ← rdU64 b
-  pure ({ p with setID := d, setAH := h }, b)
+/-- Field table of `PhotoSizeSource` (order = `fieldsPSS` in harness/c38/wire.go). -/
+def PSS.get (p : PSS) : Nat → Nat
+  | 0 => p.type | 1 => p.volumeID | 2 => p.localID | 3 => p.secret | 4 => p.fileType
+  | 5 => p.thumbType | 6 => p.dialogID | 7 => p.dialogAH | 8 => p.setID | 9 => p.setAH
+  | 10 => p.stickerVersion | _ => 0
 
-def readLocalVolume (p : PSS) (b : Bytes) : Except DErr (PSS × Bytes) := do
-  let (v, b) ← rdU64 b
-  let (l, b) ← rdU32 b
-  pure ({ p with volumeID := v, localID := l }, b)
+def PSS.set (p : PSS) (f v : Nat) : PSS :=
+  match f with
+  | 0 => { p with type := v } | 1 => { p with volumeID := v } | 2 => { p with localID := v }
+  | 3 => { p with secret := v } | 4 => { p with fileType := v } | 5 => { p with thumbType := v }
+  | 6 => { p with dialogID := v } | 7 => { p with dialogAH := v } | 8 => { p with setID := v }
+  | 9 => { p with setAH := v } | 10 => { p with stickerVersion := v } | _ => p
 
-/-- The `switch photoSizeType` of `PhotoSizeSource.decode`. -/
-def PSS.decodeBody (p : PSS) (t : Nat) (b : Bytes) : Except DErr (PSS × Bytes) :=
-  match t with
-  | 0 => do
-    let (s, b1) ← rdU64 b
-    pure ({ p with secret := s }, b1)
-  | 1 => do
-    let (ft, b1) ← rdU32 b
-    let (tt, b2) ← rdU32 b1
-    pure ({ p with fileType := ft, thumbType := tt }, b2)
-  | 2 | 3 => readDialog p b
-  | 4 => readStickerSet p b
-  | 5 => do
-    let (v, b1) ← rdU64 b
-    let (s, b2) ← rdU64 b1
-    let (l, b3) ← rdU32 b2
-    pure ({ p with volumeID := v, secret := s, localID := l }, b3)
-  | 6 | 7 => do
-    let (p1, b1) ← readDialog p b
-    readLocalVolume p1 b1
-  | 8 => do
-    let (p1, b1) ← readStickerSet p b
-    readLocalVolume p1 b1
-  | 9 => do
-    let (p1, b1) ← readStickerSet p b
-    let (v, b2) ← rdU32 b1
-    pure ({ p1 with stickerVersion := v }, b2)
-  | _ => pure (p, b)
+def putW (k v : Nat) : Bytes := if k = 8 then putU64 v else putU32 v
+def rdW (k : Nat) (b : Bytes) : Except DErr (Nat × Bytes) := if k = 8 then rdU64 b else rdU32 b
 
-/-- `PhotoSizeSource.decode` from the point where the type is read. -/
-def PSS.decodeTyped (p : PSS) (b : Bytes) (subVersion : Nat) : Except DErr (PSS × Bytes) := do
-  let (t, b) ← (if subVersion ≥ 4 then rdU32 b else pure (0, b))
-  -- `photoSizeType < 0 || photoSizeType >= last`: as an int32 pattern, negatives are ≥ 2^31
-  if t ≥ lastPSSType then throw .unknownPSS
-  let (p, b) ← PSS.decodeBody { p with type := t } t b
-  if subVersion < 32 ∧ subVersion ≥ 22 then
-    let (l, b1) ← rdU32 b
-    pure ({ p with localID := l }, b1)
-  else pure (p, b)
+/-- Row of a switch table whose case labels contain `t`. -/
+def caseOf {α} : List (List Nat × α) → Nat → Option α
+  | [], _ => none
+  | (ls, a) :: rest, t => if ls.contains t then some a else caseOf rest t
 
-/-- `PhotoSizeSource.decode` (all sub-versions). -/
-def PSS.decode (p : PSS) (b : Bytes) (subVersion : Nat) : Except DErr (PSS × Bytes) :=
-  if subVersion < 32 then do
-    let (v, b1) ← rdU64 b
-    let p := { p with volumeID := v }
-    if subVersion < 22 then
-      let (s, b2) ← rdU64 b1
-      let (l, b3) ← rdU32 b2
-      pure ({ p with secret := s, localID := l }, b3)
-    else PSS.decodeTyped p b1 subVersion
-  else PSS.decodeTyped p b subVersion
+def PSS.writeSteps (p : PSS) : List WStep → Bytes
+  | [] => []
+  | (_, k, f) :: rest => putW k (p.get f) ++ PSS.writeSteps p rest
 
-/-- Tail of `decodeLatestFileID` after the optional file reference. -/
-def decodeTail (f : FileID) (hasWeb : Bool) (sv : Nat) (b : Bytes) : Except DErr FileID :=
-  if hasWeb then do
-    let (u, _) ← rdBytes b
-    pure { f with url := u }
-  else do
-    let (id, b1) ← rdU64 b
-    let (ah, b2) ← rdU64 b1
-    let f := { f with id := id, accessHash := ah }
-    if isPhotoType f.type then
-      let (p, _) ← PSS.decode f.pss b2 sv
-      pure { f with pss := p }
-    else pure f
+/-- `PhotoSizeSource.encode`. -/
+def PSS.encode (p : PSS) : Bytes :=
+  p.writeSteps Facts.C38.pssEncodeHead ++ p.writeSteps ((caseOf Facts.C38.pssEncodeSwitch p.type).getD [])
 
-/-- `FileID.decodeLatestFileID` once the sub-version (last byte of the buffer) is known. -/
-def decodeLatestBody (sv : Nat) (b : Bytes) : Except DErr FileID := do
-  let (typeID, b) ← rdU32 b
-  let hasWeb : Bool := typeID / webLocationFlag % 2 = 1
-  let hasRef : Bool := typeID / fileReferenceFlag % 2 = 1
-  let typeID := typeID - (if hasWeb then webLocationFlag else 0) - (if hasRef then fileReferenceFlag else 0)
-  if typeID ≥ lastType then throw .unknownType
-  let (dc, b) ← rdU32 b
-  let f : FileID := { type := typeID, dc := dc }
-  if hasRef then
-    let (r, b1) ← rdBytes b
-    decodeTail { f with fileRef := r } hasWeb sv b1
-  else decodeTail f hasWeb sv b
+def PSS.readSteps (p : PSS) : List WStep → Bytes → Except DErr (PSS × Bytes)
+  | [], b => pure (p, b)
+  | (_, k, f) :: rest, b => do
+    let (v, b1) ← rdW k b
+    PSS.readSteps (p.set f v) rest b1
 
-/-- `FileID.decodeLatestFileID`. -/
+/-- `PhotoSizeSource.decode`: `t` is the local `photoSizeType`; a step runs iff the
+sub-version lies in its range `[cond / 1000, cond % 1000)`. -/
+def PSS.decodeProg (sv : Nat) : List WStep → PSS → Nat → Bytes → Except DErr (PSS × Bytes)
+  | [], p, _, b => pure (p, b)
+  | (c, k, f) :: rest, p, t, b =>
+    if c / 1000 ≤ sv ∧ sv < c % 1000 then
+      if k = 9 then pure (p, b)
+      else if k = 6 then
+        if t ≥ lastPSSType then throw .unknownPSS
+        else do
+          let (p1, b1) ← PSS.readSteps { p with type := t } ((caseOf Facts.C38.pssDecodeSwitch t).getD []) b
+          PSS.decodeProg sv rest p1 t b1
+      else do
+        let (v, b1) ← rdW k b
+        if f = 0 then PSS.decodeProg sv rest p v b1
+        else PSS.decodeProg sv rest (p.set f v) t b1
+    else PSS.decodeProg sv rest p t b
+
+def PSS.decode (p : PSS) (b : Bytes) (sv : Nat) : Except DErr (PSS × Bytes) :=
+  PSS.decodeProg sv Facts.C38.pssDecode p 0 b
+
+/-- Does a step of a `FileID` program run? (`cond`: 0 always, 1 hasReference, 2 hasWebLocation,
+3 photo type, 4 not a photo type). -/
+def condOn (c : Nat) (hasRef hasWeb photo : Bool) : Bool :=
+  c = 0 || (c = 1 && hasRef) || (c = 2 && hasWeb) || (c = 3 && photo) || (c = 4 && !photo)
+
+/-- `FileID.encodeLatestFileID` (`typeID` = type with the two flag bits). -/
+def FileID.encodeProg (f : FileID) (hasRef hasWeb : Bool) (typeID : Nat) : List WStep → Bytes
+  | [] => []
+  | (c, k, fld) :: rest =>
+    if condOn c hasRef hasWeb (Facts.C38.encPhotoTypes.contains f.type) then
+      if k = 9 then []
+      else
+        (if k = 4 then putU32 (if fld = 0 then typeID else f.dc)
+         else if k = 8 then putU64 (if fld = 4 then f.id else f.accessHash)
+         else if k = 1 then putBytes (if fld = 2 then f.fileRef else f.url)
+         else if k = 7 then f.pss.encode
+         else [UInt8.ofNat latestSubVersion]) ++ FileID.encodeProg f hasRef hasWeb typeID rest
+    else FileID.encodeProg f hasRef hasWeb typeID rest
+
+def FileID.encodeLatest (f : FileID) : Bytes :=
+  let hasWeb : Bool := f.url ≠ []
+  let hasRef : Bool := f.fileRef ≠ []
+  let typeID := f.type ||| (if hasWeb then webLocationFlag else 0) ||| (if hasRef then fileReferenceFlag else 0)
+  FileID.encodeProg f hasRef hasWeb typeID Facts.C38.encLatest
+
+def encodeRaw (f : FileID) : Bytes :=
+  rleEncode (f.encodeLatest ++ [UInt8.ofNat persistentIDVersion])
+
+/-- `FileID.decodeLatestFileID`. The first word is the type id: it yields the two
+flags and the type (range-checked against `lastType`). -/
+def decodeProg (sv : Nat) : List WStep → FileID → (hasRef hasWeb : Bool) → Bytes → Except DErr FileID
+  | [], f, _, _, _ => pure f
+  | (c, k, fld) :: rest, f, hasRef, hasWeb, b =>
+    if condOn c hasRef hasWeb (Facts.C38.decPhotoTypes.contains f.type) then
+      if k = 9 then pure f
+      else if k = 4 ∧ fld = 0 then do
+        let (typeID, b1) ← rdU32 b
+        let hw : Bool := typeID / webLocationFlag % 2 = 1
+        let hr : Bool := typeID / fileReferenceFlag % 2 = 1
+        let t := typeID - (if hw then webLocationFlag else 0) - (if hr then fileReferenceFlag else 0)
+        if t ≥ lastType then throw .unknownType
+        decodeProg sv rest { f with type := t } hr hw b1
+      else if k = 4 then do
+        let (v, b1) ← rdU32 b
+        decodeProg sv rest { f with dc := v } hasRef hasWeb b1
+      else if k = 8 then do
+        let (v, b1) ← rdU64 b
+        decodeProg sv rest (if fld = 4 then { f with id := v } else { f with accessHash := v }) hasRef hasWeb b1
+      else if k = 1 then do
+        let (v, b1) ← rdBytes b
+        decodeProg sv rest (if fld = 2 then { f with fileRef := v } else { f with url := v }) hasRef hasWeb b1
+      else do
+        let (p, b1) ← PSS.decode f.pss b sv
+        decodeProg sv rest { f with pss := p } hasRef hasWeb b1
+    else decodeProg sv rest f hasRef hasWeb b
+
 def decodeLatest (b : Bytes) : Except DErr FileID :=
   match b.getLast? with
   | none => .error .eof
-  | some sv => decodeLatestBody sv.toNat b
+  | some sv => decodeProg sv.toNat Facts.C38.decLatest {} false false b
 
-/-- `DecodeFileID` after base64 (`data` = base64-decoded bytes). -/
+/-- `DecodeFileID` after base64, with the interpreted decoder. -/
 def decodeRaw (data : Bytes) : Except DErr FileID :=
   let d := rleDecode data
   if d.length < 2 then .error .tooSmall
@@ -233,6 +240,60 @@ def decodeRaw (data : Bytes) : Except DErr FileID :=
       if v.toNat = Facts.C38.persistentIDVersionOld ∨ v.toNat = Facts.C38.persistentIDVersionMap then .error .unsupported
       else if v.toNat = persistentIDVersion then decodeLatest d.dropLast
       else .error .unknownVersion
+
+/-! ### Panic-explicit layer for the glue code of `DecodeFileID` / `decodeLatestFileID`
+
+The only slice/index expressions outside `bin.Buffer` are `data[len(data)-1]`, `data[:len(data)-1]`
+and `b.Buf[len(b.Buf)-1]` (Go `int` arithmetic, modelled in `Int` so that a missing length check
+would show up as a negative index).  The field reads themselves go through `bin.Buffer`, whose
+panic-freedom is `getU32P_eq` / `getU64P_eq` / `getBytesP_eq` in Lemmas/Bin.lean. -/
+
+inductive POut (α : Type) where
+  | ok (a : α)
+  | err (e : DErr)
+  | panic
+  deriving Repr, DecidableEq
+
+def POut.ofExcept {α} : Except DErr α → POut α
+  | .ok a => .ok a
+  | .error e => .err e
+
+/-- `b[i]` for a Go `int` index. -/
+def idxP (b : Bytes) (i : Int) : POut UInt8 :=
+  if i < 0 then .panic else
+  match b[i.toNat]? with
+  | some x => .ok x
+  | none => .panic
+
+/-- `b[:hi]` for a Go `int` bound. -/
+def sliceToP (b : Bytes) (hi : Int) : POut Bytes :=
+  if 0 ≤ hi ∧ hi.toNat ≤ b.length then .ok (b.take hi.toNat) else .panic
+
+/-- `FileID.decodeLatestFileID` with its index expression explicit. -/
+def decodeLatestP (b : Bytes) : POut FileID :=
+  if b.length < 1 then .err .eof
+  else
+    match idxP b ((b.length : Int) - 1) with
+    | .ok sv => .ofExcept (decodeProg sv.toNat Facts.C38.decLatest {} false false b)
+    | .err e => .err e
+    | .panic => .panic
+
+/-- `DecodeFileID` after base64 with its index and slice expressions explicit. -/
+def decodeRawP (data : Bytes) : POut FileID :=
+  let d := rleDecode data
+  if d.length < 2 then .err .tooSmall
+  else
+    match idxP d ((d.length : Int) - 1) with
+    | .err e => .err e
+    | .panic => .panic
+    | .ok v =>
+      if v.toNat = Facts.C38.persistentIDVersionOld ∨ v.toNat = Facts.C38.persistentIDVersionMap then .err .unsupported
+      else if v.toNat = persistentIDVersion then
+        match sliceToP d ((d.length : Int) - 1) with
+        | .ok d' => decodeLatestP d'
+        | .err e => .err e
+        | .panic => .panic
+      else .err .unknownVersion
 
 /-- The fields of a photo size source that its type actually uses (all others zero). -/
 def PSS.shape (p : PSS) : PSS :=
@@ -264,5 +325,38 @@ def FileID.canon (f : FileID) : Prop :=
    else if isPhotoType f.type then f.pss.canon else f.pss = {})
 
 instance (f : FileID) : Decidable f.canon := by unfold FileID.canon; infer_instance
+
+/-! ### Constructors (`fileid/from.go`) -/
+
+/-- A `tg.DocumentAttributeClass` as far as `FromDocument` looks at it. -/
+inductive DocAttr where
+  | animated | sticker | video (round : Bool) | audio (voice : Bool) | other
+  deriving Repr, DecidableEq
+
+/-- The type chosen by the loop of `FromDocument` (later attributes override earlier ones). -/
+def docType : Nat → List DocAttr → Nat
+  | t, [] => t
+  | t, a :: rest =>
+    docType (match a with
+      | .animated => Facts.C38.typeAnimation
+      | .sticker => Facts.C38.typeSticker
+      | .video r => if r then Facts.C38.typeVideoNote else Facts.C38.typeVideo
+      | .audio v => if v then Facts.C38.typeVoice else Facts.C38.typeAudio
+      | .other => t) rest
+
+/-- `FromDocument`. -/
+def fromDocument (attrs : List DocAttr) (dc id ah : Nat) (ref : Bytes) : FileID :=
+  { type := docType Facts.C38.typeDocumentAsFile attrs, dc := dc, id := id, accessHash := ah, fileRef := ref }
+
+/-- `FromPhoto`. -/
+def fromPhoto (thumb dc id ah : Nat) (ref : Bytes) : FileID :=
+  { type := Facts.C38.typePhoto, dc := dc, id := id, accessHash := ah, fileRef := ref,
+    pss := { type := Facts.C38.pssThumbnail, fileType := Facts.C38.typePhoto, thumbType := thumb } }
+
+/-- `FromChatPhoto`. -/
+def fromChatPhoto (big : Bool) (peer ah dc photoID : Nat) : FileID :=
+  { type := Facts.C38.typeProfilePhoto, dc := dc, id := photoID,
+    pss := { type := if big then Facts.C38.pssDialogPhotoBig else Facts.C38.pssDialogPhotoSmall,
+             dialogID := peer, dialogAH := ah } }
 
 end TdModel.C38
